@@ -111,8 +111,6 @@ def _scenario(kind, n, c, p_size, bad, ev, want):
     elif kind == 'starmap':
         h = p.starmap_async(Fn2(bad), [_star_args(x) for x in range(n)], chunksize=chunk)
     elif kind in ('imap', 'imapu'):
-        if chunk and chunk > 1 and bad:
-            raise Prune()        # with chunks, one failing item fails its whole chunk and ends the flattening generator: outside the claim
         h = (p.imap if kind == 'imap' else p.imap_unordered)(Fn(bad), list(range(n)), **({'chunksize': chunk} if chunk else {}))
         if chunk and chunk > 1:
             # imap(chunksize > 1) hands back a generator that flattens the chunks of the real iterator (which sits in the cache);
@@ -197,13 +195,42 @@ def _scenario(kind, n, c, p_size, bad, ev, want):
             got.append((False, einfo.exception.args))
     else:
         return fail('C02:iterator-yields-too-many-items:' + kind)
+    chunked_failure = bool(chunk and chunk > 1 and fails)
     if kind == 'imap':
         if got != seq:
+            if chunked_failure and _chunk_semantics(got, seq, chunk, ordered=True):
+                return fail('C02:imap-chunked:a-raising-item-fails-its-whole-chunk-and-ends-the-iteration')
             return fail('C02:imap-order-or-values-differ')
     else:
         if sorted(got, key=repr) != sorted(seq, key=repr):
+            if chunked_failure and _chunk_semantics(got, seq, chunk, ordered=False):
+                return fail('C02:imap-chunked:a-raising-item-fails-its-whole-chunk-and-ends-the-iteration')
             return fail('C02:imap_unordered-multiset-differs')
     return True
+
+
+def _chunk_semantics(got, seq, c, ordered):
+    """what the chunked iterators deliver when an item raises (finding F23): whole chunks without a failing item, then the error of the FIRST failing item of
+    one failing chunk (mapstar stops there), then the end of the iteration.  Anything else is a different violation."""
+    chunks = [seq[i:i + c] for i in range(0, len(seq), c)]
+    if not got or got[-1][0] or any(not g[0] for g in got[:-1]):
+        return False
+    items, err = got[:-1], got[-1]
+    clean = [ch for ch in chunks if all(s[0] for s in ch)]
+    failing = [ch for ch in chunks if not all(s[0] for s in ch)]
+    first_errors = [[s for s in ch if not s[0]][0] for ch in failing]
+    if err not in first_errors:
+        return False
+    if ordered:
+        k = chunks.index(failing[0])
+        return items == [s for ch in chunks[:k] for s in ch] and err == first_errors[0]
+    # unordered: the items delivered are those of some set of whole clean chunks, each once
+    left = list(items)
+    for ch in clean:
+        if all(s in left for s in ch):
+            for s in ch:
+                left.remove(s)
+    return not left
 
 
 def _go(code, want):
